@@ -64,7 +64,10 @@ var libPathPool = []struct{ path, name string }{
 	{"lib/util", "util"},
 	{"example.com/z/util", "util"},
 	{"example.com/root/internal/eps", "eps"},
-	{"fmtx", "fmt"}, // name collides with a well-known name, path differs
+	{"fmtx", "fmt"},                                                     // name collides with a well-known name, path differs
+	{"vendor/golang.org/x/net/idna", "idna"},                            // GOROOT-style vendoring: the path starts with vendor/
+	{"corp/render.v2/util", "util"},                                     // a dot below the first path element, none in it
+	{"example.com/root/vendor/example.com/mid/vendor/x.y/leaf", "leaf"}, // vendored by a vendored package
 }
 
 func libSrc(name string, k int) string {
